@@ -79,6 +79,7 @@ def run(ctx):
         e = parse_ex(gr) if gr else None
         if e:
             items.append((e, t_ok, {certurl: k['chain']}))
+    items_file_marker = list(items)
     # --- in-memory field edits of honest exchanges
     def sigparams(sig):
         return sig
@@ -96,6 +97,22 @@ def run(ctx):
         e = list(e0); e[4] = '404'; variants.append(e)
         e = list(e0); e[7] = hexs(unhex(e0[7]) + b'x'); variants.append(e)
         e = list(e0); e[7] = hexs(unhex(e0[7])[:-1]); variants.append(e)
+        # payload removed / cut at structural points (empty body, record-size field only, first record only)
+        pl = unhex(e0[7])
+        for cut in (0, 4, 8, 9, 8 + 16, 8 + 16 + 32, len(pl) // 2):
+            if cut < len(pl):
+                e = list(e0); e[7] = hexs(pl[:cut]); variants.append(e)
+        e = list(e0); e[7] = hexs(pl + pl); variants.append(e)
+        # a header field added after signing, under every name the code base treats specially (and a neutral one)
+        for nm in (b'Signature', b'signature', b'Digest', b'Content-Encoding', b'Mi', b'Content-Type', b'X-Injected', b'Variants', b'Variant-Key', b'Link'):
+            for col in ([5] if e0[0] == 'b3' else [5, 3]):
+                if hexs(nm).lower() in e0[col].lower() or hexs(nm.lower()) in e0[col].lower():
+                    continue
+                e = list(e0); e[col] = (e0[col] + ';' if e0[col] != '.' else '') + hexs(nm) + '=' + hexs(b'evil'); variants.append(e)
+        # Digest / Content-Encoding edited or dropped
+        for nm in (b'Digest', b'Content-Encoding'):
+            e = list(e0); e[5] = ';'.join(p for p in e0[5].split(';') if not p.lower().startswith(hexs(nm).lower())); variants.append(e)
+        e = list(e0); e[5] = ';'.join((p.split('=')[0] + '=' + hexs(b'mi-sha256-03=AAAA')) if p.lower().startswith(hexs(b'Digest').lower()) else p for p in e0[5].split(';')); variants.append(e)
         e = list(e0); e[5] = e0[5].replace(hexs(b'Bar'), hexs(b'Bat')); variants.append(e)
         e = list(e0); e[5] = e0[5] + ';' + hexs(b'X-New') + '=' + hexs(b'1'); variants.append(e)
         e = list(e0); e[5] = ';'.join(p for p in e0[5].split(';') if not p.startswith(hexs(b'Foo'))); variants.append(e)
@@ -141,6 +158,9 @@ def run(ctx):
             items.append((e0, t_ok, {certurl: kk['chain']}))
         for t in [(date, 0), (expires, 0), (date - 1, 0), (expires + 1, 0), (0, 0), (2**40, 0)]:
             items.append((e0, t, fetch))
-    if not thorough and len(items) > 6000:
-        items = items[:6000]
+    if not thorough and len(items) > 9000:
+        # keep every in-memory variant; sample the file-level mutants
+        nfile = sum(1 for _ in items_file_marker)
+        keep = set(rng.sample(range(nfile), max(0, 9000 - (len(items) - nfile))))
+        items = [it for i, it in enumerate(items) if i >= nfile or i in keep]
     verify_stage(ctx, items)
